@@ -1,1 +1,49 @@
-From VP Require Import Base.Tactics Value.Model.
+(* C40 — property theorems only.  Model: Value/Model.v (the definitions evaluated in the
+   correspondence check); lemmas: Value/ProofsBase.v, ProofsEq.v, ProofsHash.v.
+
+   [wf v] is the IndexMap invariant (keys of every map are unique), which every Value has.
+   [hash_stream v] is the exact sequence of Hasher::write_* calls made by Value::hash, so equal
+   streams give equal hashes under every Hasher.  Values range over every variant at any depth:
+   floats by their 64 bits (all NaN payloads, both zeros), maps with any insertion order. *)
+From VP Require Import Base.Tactics Value.Model Value.ProofsBase Value.ProofsEq Value.ProofsHash.
+Open Scope Z_scope.
+
+Theorem C40_refl : forall a, wf a = true -> veq a a = true.
+Proof. exact veq_refl. Qed.
+
+Theorem C40_sym : forall a b, wf a = true -> wf b = true -> veq a b = true -> veq b a = true.
+Proof. exact veq_sym. Qed.
+
+Theorem C40_trans : forall a b c, wf a = true -> wf b = true -> wf c = true ->
+  veq a b = true -> veq b c = true -> veq a c = true.
+Proof. exact veq_trans. Qed.
+
+Theorem C40_hash : forall a b, wf a = true -> wf b = true -> veq a b = true -> hash_stream a = hash_stream b.
+Proof. exact veq_hash. Qed.
+
+(* the shapes the property names are equal values, so the theorems say something about them:
+   maps written in different insertion orders, nested, with NaNs of different payload and zeros of different sign *)
+Definition ex_a : value :=
+  VMap [([97], VMap [([120], VFloat 0); ([121], VArr [])]); ([98], VFloat 9221120237041090560)].
+Definition ex_b : value :=
+  VMap [([98], VFloat 9221120237041090561); ([97], VMap [([121], VArr []); ([120], VFloat 9223372036854775808)])].
+Example C40_nonvacuous : wf ex_a = true /\ wf ex_b = true /\ veq ex_a ex_b = true /\ ex_a <> ex_b /\ veq ex_a (VMap []) = false.
+Proof. repeat split; try (vm_compute; reflexivity). discriminate. Qed.
+
+(* the hash before the repair visited map entries in insertion order and was not consistent with == *)
+Theorem C40_unrepaired_hash_refuted : exists a b,
+  wf a = true /\ wf b = true /\ veq a b = true /\ hash_stream_unrepaired a <> hash_stream_unrepaired b.
+Proof.
+  exists (VMap [([97], VInt 1); ([98], VInt 2)]), (VMap [([98], VInt 2); ([97], VInt 1)]).
+  repeat split; try (vm_compute; reflexivity). vm_compute. discriminate.
+Qed.
+
+(* bit-level float facts used by the model, for the special values *)
+Example C40_float_cases :
+  float_eq 9221120237041090560 18444492273895866368 = true /\       (* NaN == -NaN (other payload) *)
+  float_eq 0 9223372036854775808 = true /\                          (* 0.0 == -0.0 *)
+  float_eq 9218868437227405312 18442240474082181120 = false /\      (* inf <> -inf *)
+  float_eq 9221120237041090560 9218868437227405312 = false /\       (* NaN <> inf *)
+  float_hash_bits 18444492273895866368 = float_hash_bits 9218868437227405313 /\
+  float_hash_bits 9223372036854775808 = 0.
+Proof. vm_compute. repeat split; reflexivity. Qed.
